@@ -53,6 +53,13 @@ int main(int argc, char **argv)
 			if (line[0] == 'B') { free(base); base = vf_read_file(line + 2, &bsize); if (!base) { puts("?base"); } continue; }
 			if (!base) { puts("?nobase"); continue; }
 			if (line[0] == 'O') { load_variant(tmp, base, bsize); continue; }
+			if (line[0] == 'M') {
+				/* "M off val off val ...": several bytes substituted at once (stored data damaged AND a check field rewritten) */
+				unsigned char *copy = malloc(bsize ? bsize : 1); char *q = line + 1; long o; unsigned vv; int n;
+				memcpy(copy, base, bsize);
+				while (sscanf(q, "%ld %u%n", &o, &vv, &n) == 2) { if (o >= 0 && o < bsize) copy[o] = (unsigned char)vv; q += n; }
+				load_variant(tmp, copy, bsize); free(copy); continue;
+			}
 			if (sscanf(line + 1, "%ld %u", &off, &v) < 1) { puts("?"); continue; }
 			if (line[0] == 'T') { load_variant(tmp, base, off < bsize ? off : bsize); continue; }
 			if (off < 0 || off >= bsize) { puts("?off"); continue; }
